@@ -74,7 +74,7 @@ class Concretize(Exception):
 
 
 class Alloc(object):
-    __slots__ = ("id", "size", "align", "kind", "cells", "freed", "base", "owner", "label")
+    __slots__ = ("id", "size", "align", "kind", "cells", "freed", "base", "owner", "label", "maxsz")
 
     def __init__(self, id, size, align, kind, base, owner, label=None):
         self.id = id
@@ -86,11 +86,13 @@ class Alloc(object):
         self.base = base
         self.owner = owner
         self.label = label
+        self.maxsz = 1
 
     def copy(self, owner):
         a = Alloc(self.id, self.size, self.align, self.kind, self.base, owner, self.label)
         a.cells = dict(self.cells)
         a.freed = self.freed
+        a.maxsz = self.maxsz
         return a
 
 
@@ -232,8 +234,8 @@ class State(object):
     def new_alloc(self, size, align, kind, label=None):
         aid = self.next_alloc
         self.next_alloc += 1
-        align = max(int(align or 1), 1)
-        base = (self.next_base + max(align, 16) - 1) // max(align, 16) * max(align, 16)
+        al = align if align and align > 16 else 16
+        base = (self.next_base + al - 1) // al * al
         self.next_base = base + size + 64
         a = Alloc(aid, size, align, kind, base, self.token, label)
         self.mem[aid] = a
@@ -300,7 +302,7 @@ class State(object):
     def _byte_of(self, a, pos):
         cells = a.cells
         o = pos
-        lo = pos - 16
+        lo = pos - a.maxsz
         while o > lo:
             c = cells.get(o)
             if c is not None:
@@ -336,7 +338,9 @@ class State(object):
 
     def _clear_range(self, a, off, size):
         cells = a.cells
-        for o in range(off - 15, off + size):
+        if not cells:
+            return
+        for o in range(off - a.maxsz + 1, off + size):
             c = cells.get(o)
             if c is None:
                 continue
@@ -366,6 +370,8 @@ class State(object):
         c = a.cells.get(off)
         if c is None or c[0] != size:
             self._clear_range(a, off, size)
+            if size > a.maxsz:
+                a.maxsz = size
         a.cells[off] = (size, val)
 
     # ---- blobs -------------------------------------------------------------------------
@@ -376,9 +382,12 @@ class State(object):
         self._check(a, off, size, "read")
         out = []
         cells = a.cells
+        c = cells.get(off)
+        if c is not None and c[0] == size:
+            return [(0, size, c[1])]
         end = off + size
         if size <= 64 or size < 2 * len(cells):
-            o = off - 15
+            o = off - a.maxsz + 1
             while o < end:
                 c = cells.get(o)
                 if c is not None:
@@ -414,10 +423,19 @@ class State(object):
             return
         a = self.walloc(aid)
         self._check(a, off, size, "write")
-        self._clear_range(a, off, size)
         cells = a.cells
+        if len(blob) == 1 and blob[0][0] == 0 and blob[0][1] == size:
+            c = cells.get(off)
+            if c is not None and c[0] == size:
+                cells[off] = (size, blob[0][2])
+                return
+        self._clear_range(a, off, size)
+        mx = a.maxsz
         for (r, s, v) in blob:
             cells[off + r] = (s, v)
+            if s > mx:
+                mx = s
+        a.maxsz = mx
 
     # ---- path condition ----------------------------------------------------------------
     def add_constraint(self, c):
